@@ -593,6 +593,14 @@ func (eng *Engine) verifyFunction(fn *ssa.Function, con *Contract, bounded int) 
 	c.entry = st.clone()
 	rst, rvals := c.run(fr, st)
 	c.resultVals = rvals
+	if bounded == 0 {
+		// every assert_at / check_at / mark must have found its source line
+		for _, a := range con.Asserts {
+			if !c.matched[a] {
+				bail("contract of %s names a source line that does not exist (or is unreachable): %q", shortFunc(fn.String()), a.Name)
+			}
+		}
+	}
 	c.exitState = rst
 	// postconditions at the merged return
 	if rst.guard != "false" {
